@@ -43,6 +43,12 @@ def run(tier):
     for g in rndc.sample(monos, min(len(monos), 2268 if tier == "thorough" else 400)):
         name, opts = lin_cfgs[rndc.randrange(len(lin_cfgs))]
         cases.append({"id": len(cases), "gen": g, "cfgname": name, "opts": [o for o in opts if not o.startswith("acc:expa=")]})
+    # piecewise-linear terms under the fully linear configuration: PL -> SOS2 -> the logarithmic (ZZI) encoding,
+    # whose matrix is built incrementally (the first set converted decides its initial state)
+    pls = [g for g in gen if g["op"] in ("pl", "pl1", "plneg", "plpos") and g["kind"] in ("num", "dvar")]
+    lin_only = [c_ for c_ in configs[0] if c_[0] == "mip-linear"][0]
+    for g in rndc.sample(pls, min(len(pls), 3000 if tier == "thorough" else 300)):
+        cases.append({"id": len(cases), "gen": g, "cfgname": lin_only[0], "opts": list(lin_only[1])})
     recs, stats = cvtcases.run_and_record(exe, PID, cases)
     res = validate_parallel("TraceReform", "TraceReform.cfg", recs, os.path.join(SPECS, "flat"), "c01")
     verdicts = [v for r in res for v in printed_json(r, "VERDICT")]
